@@ -80,6 +80,10 @@ def run(repo: Repo, chk: Check):
     chk.rule("R11.e", "no loop on the compile path iterates a set of names in hash order while its body depends on the order: the string "
                       "hash seed differs between processes, so the result would differ from a fresh process", floor=3)
     chk.guarded(r11e, repo, chk)
+    chk.rule("R11.f", "what outlives a compilation carries nothing of it: the constexpr cache holds decoded results only (no exception or node of the "
+                      "text it was first seen in), and CodeData.get_sym_data hands out objects made by or stored in this compilation, never a module-level "
+                      "register singleton", floor=3)
+    chk.guarded(r11f, repo, chk)
     inventory(repo, chk)
     r11b(repo, chk)
     r11cd(repo, chk)
@@ -500,3 +504,135 @@ def r11e(repo, chk):
                           f"compilation result differs between processes; iterate sorted(...) instead", None, f"{m.path}:{lp.lineno} in {fn.qual}")
     if n < 2:
         raise AnalysisError(f"R11.e: only {n} loops over sets found on the compile path")
+
+
+# ---------------------------------------------------------------------- R11.f
+def cache_values(repo, chk, R):
+    """Every value stored in utils._eval_constexpr_cache is data decoded from the child's output."""
+    u = repo.mod("utils")
+    fn = u.anchor("eval_constexpr")
+    cfg = CFG(fn)
+    rd = ReachingDefs(cfg)
+    where = f"{u.path}:{fn.lineno} in eval_constexpr"
+    stores = [st for st in ast.walk(fn) if isinstance(st, ast.Assign) and any(isinstance(t, ast.Subscript) and norm(t.value) == "_eval_constexpr_cache" for t in st.targets)]
+    if not stores:
+        raise AnalysisError("eval_constexpr: no store into _eval_constexpr_cache found")
+
+    def classify(e, at, depth=0):
+        """'data' (decoded result / literal), 'exception' (an exception object), None unknown"""
+        if depth > 5:
+            return None
+        if isinstance(e, ast.Constant) or isinstance(e, (ast.Dict, ast.List, ast.Tuple)):
+            return "data"
+        if isinstance(e, ast.Call):
+            f = norm(e.func)
+            if f in ("json.loads", "__json.loads", "vars.get", "float", "int", "str", "tuple", "list", "dict") or f.endswith(".loads") or f.endswith(".get"):
+                return "data"
+            if isinstance(e.func, ast.Name) and (e.func.id.endswith("Error") or e.func.id.endswith("Exception")):
+                return "exception"
+        if isinstance(e, ast.Subscript):
+            return classify(e.value, at, depth + 1)
+        if isinstance(e, ast.Name):
+            ids = [n.id for n in cfg.nodes_of(at)] if not isinstance(at, int) else [at]
+            ds = rd.at(ids[0], e.id) if ids else []
+            kinds = set()
+            for d in ds:
+                if d.kind == "except":
+                    kinds.add("exception")
+                elif d.kind == "assign" and d.value is not None:
+                    kinds.add(classify(d.value, d.node, depth + 1))
+                else:
+                    kinds.add(None)
+            if "exception" in kinds:
+                return "exception"
+            return kinds.pop() if len(kinds) == 1 else None
+        return None
+    for st in stores:
+        k = classify(st.value, st)
+        key = f"utils:eval_constexpr:cached value {norm(st.value)[:40]}"
+        if k == "exception":
+            chk.bad(R, key, f"an exception object ({norm(st.value)}) is stored in the cache that outlives the compilation: it keeps the syntax-tree node (line, column, quoted source) of the "
+                    f"text it was first raised for, and a later compilation of another text that contains the same call reports that stale position", None,
+                    f"{u.path}:{st.lineno} in eval_constexpr")
+        elif k == "data":
+            chk.ok(R, key, {"kind": "decoded result"})
+        else:
+            raise AnalysisError(f"eval_constexpr: value stored in the cache not classified: {norm(st.value)[:60]}")
+
+
+def sym_data_sources(repo, chk, R):
+    cp = repo.mod("compile_pass")
+    fn = cp.func("CodeData.get_sym_data")
+    chk.saw("compile_pass", "CodeData.get_sym_data")
+    cfg = CFG(fn)
+    rd = ReachingDefs(cfg)
+    MODULE_ROOTS = {"symbols", "types", "utils", "intrinsics"}
+
+    def origin(e, at, depth=0):
+        """'fresh' | 'per-compile' | 'module' | None"""
+        if depth > 5:
+            return None
+        if isinstance(e, ast.Call):
+            if isinstance(e.func, ast.Name) and e.func.id == "getattr" and e.args and isinstance(e.args[0], ast.Name) and e.args[0].id in MODULE_ROOTS:
+                return "module"
+            if isinstance(e.func, ast.Name) and e.func.id[:1].isupper() or norm(e.func) in ("copy.copy", "copy.deepcopy"):
+                return "fresh"
+            if isinstance(e.func, ast.Attribute) and e.func.attr in ("get", "setdefault"):
+                return origin(e.func.value, at, depth + 1)
+            return None
+        if isinstance(e, (ast.Attribute, ast.Subscript)):
+            root = e
+            while isinstance(root, (ast.Attribute, ast.Subscript)):
+                root = root.value
+            if isinstance(root, ast.Name) and root.id in ("self",):
+                return "per-compile"
+            if isinstance(root, ast.Name) and root.id in MODULE_ROOTS:
+                return "module"
+            if isinstance(root, ast.Name):
+                return origin(root, at, depth + 1)
+            if isinstance(root, ast.Call):
+                return origin(root, at, depth + 1)
+            return None
+        if isinstance(e, ast.Name):
+            if e.id in MODULE_ROOTS:
+                return "module"
+            ds = rd.at(at, e.id)
+            kinds = set()
+            for d in ds:
+                if d.kind == "assign" and d.value is not None:
+                    kinds.add(origin(d.value, d.node, depth + 1))
+                elif d.kind == "param":
+                    kinds.add("per-compile")
+                else:
+                    kinds.add(None)
+            if "module" in kinds:
+                return "module"
+            kinds.discard("fresh")
+            if not kinds:
+                return "fresh"
+            return kinds.pop() if len(kinds) == 1 else None
+        if isinstance(e, ast.Constant) and e.value is None:
+            return "fresh"
+        return None
+    n = 0
+    for node in cfg.nodes:
+        if node.kind != "return" or node.id not in cfg.reachable() or node.ast.value is None:
+            continue
+        n += 1
+        o = origin(node.ast.value, node.id)
+        key = f"compile_pass:CodeData.get_sym_data:returns {norm(node.ast.value)[:50]}"
+        where = f"{cp.path}:{node.ast.lineno} in CodeData.get_sym_data"
+        if o == "module":
+            chk.bad(R, key, f"get_sym_data hands out {norm(node.ast.value)}, an object that lives at module level: the code generator writes code_expr, nodes_reading/nodes_writing "
+                    f"on what it gets from here, so one program that assigns to it changes how every later program of the process is compiled", None, where)
+        elif o in ("fresh", "per-compile"):
+            chk.ok(R, key, {"origin": o})
+        else:
+            raise AnalysisError(f"get_sym_data: origin of the returned {norm(node.ast.value)[:60]} not determined")
+    if n == 0:
+        raise AnalysisError("get_sym_data: no return found")
+
+
+def r11f(repo, chk, R="R11.f"):
+    chk.guarded(cache_values, repo, chk, R)
+    chk.guarded(sym_data_sources, repo, chk, R)
